@@ -7,7 +7,7 @@ for d in $(ls -d refactors/C??-r* | sort -V); do
   out=$(tools/refac_eval.sh $d/patch.diff $(basename $d) 2>&1 | tail -1)
   echo "$out"
   id=$(basename $d)
-  case "$out" in *": 0 check(s) reported") ;; *"does not apply"*) ;; *) if grep -q "\"$id\"" refactors/KNOWN_LIMITS.json; then echo "   (known limit: anchor removed / renamed, see refactors/KNOWN_LIMITS.json)"; lim=$((lim+1)); else bad=$((bad+1)); fi;; esac
+  case "$out" in *": 0 check(s) reported") ;; *"does not apply"*) ;; *) if grep -q "\"$id\"" refactors/KNOWN_LIMITS.json; then echo "   (known limit, see refactors/KNOWN_LIMITS.json)"; lim=$((lim+1)); else bad=$((bad+1)); fi;; esac
   n=$((n+1))
 done
 echo "refactors=$n alarming=$bad known-limits=$lim"
